@@ -10,6 +10,7 @@ mod counter;
 mod traits;
 mod codec;
 mod cmp;
+mod strapi;
 
 #[global_allocator]
 static GLOBAL: alloc::Tracking = alloc::Tracking;
@@ -46,6 +47,7 @@ fn main() {
         "traits" => traits::run(&out, &tier, seed, &rest),
         "codec" => codec::run(&out, &tier, seed, &rest),
         "cmp" => cmp::run(&out, &tier, seed, &rest),
+        "strapi" => strapi::run(&out, &tier, seed, &rest),
         _ => { eprintln!("unknown driver {}", driver); std::process::exit(2); }
     }
 }
